@@ -1596,5 +1596,5 @@ fn family(kind: usize, m: i64, ids: bool, gap: bool, so: usize) -> Sx {
     l(vec![a(1), l(vec![if ids { t("store") } else { a(-1) }, l(ress), l(sets), l(anns)])])
 }
 
-pub const RULE: &str = "(1) an exhaustive family of 432 literal stores: 9 selector kinds (text, annotation, annotation with offset, resource, dataset, key, data, multi, composite/directional) x 4 alignments x with/without public identifiers x with/without removed slots (annotation, key, data) x inline / stand-off txt / stand-off json; (2) seeded random literal stores: 1-3 resources with texts over an alphabet with quote, backslash, control characters, DEL, non-BMP and U+FFFF/U+10FFFF/U+2028, identifiers over the same alphabet, 0-2 datasets with keys, data with and without identifiers, values of all seven types (integer extremes, floats on the 1/1000 grid, nested lists to depth 2, datetimes with offsets and nanoseconds), up to 6 annotations over all selector kinds and alignments incl. offsets relative to annotations and complex selectors, removed slots of every item type, stand-off resources (txt, json, identifier = file name) and datasets; (3) the final stores of seeded random histories of the shared store generator (all operations incl. removals with cascades, ids and handles, invalid references, range compression) inline and with stand-off members. Each store is written as STAM JSON pretty and compact, both outputs are parsed into trees and compared with the model's documents, the stand-off files likewise; the store is loaded again from the string and from a file, observed again (canonical observation by names, slot layout, every reverse lookup and id resolution by name), written again (bytes equal), saved with save(). One evaluation = one compared sub-case (8 per store).";
+pub const RULE: &str = "(1) an exhaustive family of 432 literal stores: 9 selector kinds (text, annotation, annotation with offset, resource, dataset, key, data, multi, composite/directional) x 4 alignments x with/without public identifiers x with/without removed slots (annotation, key, data) x inline / stand-off txt / stand-off json; (2) seeded random literal stores: 1-3 resources with texts over an alphabet with quote, backslash, control characters, DEL, non-BMP and U+FFFF/U+10FFFF/U+2028, identifiers over the same alphabet, 0-2 datasets with keys, data with and without identifiers, values of all seven types (integer extremes, floats on the 1/1000 grid, nested lists to depth 2, datetimes with offsets and nanoseconds), up to 6 annotations over all selector kinds and alignments incl. offsets relative to annotations and complex selectors, removed slots of every item type, stand-off resources (txt, json, identifier = file name) and datasets; (3) save/modify/save families (14 kinds of modification x resource inline/txt/json x dataset inline/stand-off x once/twice) and an exhaustive small scope: a fixed prefix (resource, annotation with id and data, id-less annotation in mixed alignment) followed by EVERY sequence of 2 (thorough: 3) operations from an alphabet of 22 (all selector kinds, alignments, relative offsets, complex selectors, removals of every kind, save); (4) histories with one or two sub-stores (family of 36 + random, natural arrangement and late additions), (5) the final stores of seeded random histories of the shared store generator (all operations incl. removals with cascades, ids and handles, invalid references, range compression) inline and with stand-off members. Each store is written as STAM JSON pretty and compact, both outputs are parsed into trees and compared with the model's documents, the stand-off files likewise; the store is loaded again from the string and from a file, observed again (canonical observation by names, slot layout, every reverse lookup and id resolution by name), written again (bytes equal), saved with save(). One evaluation = one compared sub-case (8 per store).";
 pub const EXHAUSTIVE: bool = false;
